@@ -89,15 +89,16 @@ class VReactor(MemoryReactorClock):
                 return self.parked.pop(i)
         return None
 
-    def reset(self):
+    def reset(self, keep_servers=False):
         '''forget timers, listeners and parked steps (between histories)'''
         for call in list(self.getDelayedCalls()):
             if call.active():
                 call.cancel()
         self.parked.clear()
         self.from_thread.clear()
-        self.tcpServers.clear()
-        self.sslServers.clear()
+        if not keep_servers:
+            self.tcpServers.clear()
+            self.sslServers.clear()
 
     def factory_for(self, port):
         for rec in reversed(self.tcpServers + self.sslServers):
